@@ -28,6 +28,7 @@ pub fn exec(op: &str, a: &Value) -> Option<Value> {
         // the option enums' own helper tables
         "Opt.table.unit" => run(|| Ok(arg_unit(js::s(a, "unit"))), |u| json!({"ns": big(u.as_nanoseconds().unwrap_or(0) as i128), "max": int(u.to_maximum_rounding_increment().unwrap_or(0) as i64),
             "cal": u.is_calendar_unit(), "date": u.is_date_unit(), "time": u.is_time_unit()})),
+        "Opt.table.unitAdd" => run(|| Ok(arg_unit(js::s(a, "unit")) + if js::i(a, "n") < 0 { usize::MAX } else { js::i(a, "n") as usize }), |u| json!(u.to_string())),
         "Opt.table.mode" => run(|| Ok(arg_mode(js::s(a, "mode"))), |m| { let un = |p: bool| match m.get_unsigned_round_mode(p) {
                 UnsignedRoundingMode::Infinity => "infinity", UnsignedRoundingMode::Zero => "zero", UnsignedRoundingMode::HalfInfinity => "half-infinity",
                 UnsignedRoundingMode::HalfZero => "half-zero", UnsignedRoundingMode::HalfEven => "half-even" };
